@@ -144,8 +144,9 @@ def run(ctx):
                 else:
                     Um = [[rng.randrange(-8, 9) for _ in range(m)] for _ in ds["classes"]]
                     nl = [rng.randrange(-8, 9) for _ in range(m)]
-                    comps.append(additive_utility(I, Um, nl))
-                    specs.append({"utility": "custom", "util": Um, "nulls": nl})
+                    kept = rng.random() < 0.5          # a component that keeps its tables and hands out the same arrays on every call
+                    comps.append(additive_utility(I, Um, nl, keep=kept))
+                    specs.append({"utility": "custom", "util": Um, "nulls": nl, **({"keeps_tables": True} if kept else {})})
             wobj, wform = weights_as(rng, ws)
             case = dict(part=part, weights=[str(w) for w in ws], weights_form=wform, comps=[s["utility"] for s in specs], groups=ds["groups"], mode=ds["mode"],
                         y_train=ds["y_train"], y_test=ds["y_test"], dist=ds["dist"].tolist())
